@@ -85,7 +85,7 @@ def gen_cases(rng, tier):
             labels = [rng.choice(used) for _ in range(ns)]
             preds = [rng.choice(used) if rng.random() < 0.6 else lab for lab in labels]
             wkind = rng.choice(["none", "none", "int", "dyadic", "dyadic", "double"])
-            if k % 22 == 8 and ns >= 2:
+            if k % 22 == 8 and 2 <= ns <= 64:      # (few samples: the totals stay inside int64)
                 wkind = "bigint"
             weights = None
             if wkind == "bigint":
